@@ -311,4 +311,42 @@ example : ¬ (SnapshotHeader.Zstd.mk id (fun _ => none)).Sound := fun h => by
 
 example : PrimBytes.increase (.int 2147483647) (.integer 1) = some (.int (-2147483648)) := by decide
 
+/-! ## (5) injectivity: no two values share an encoding (added; corollaries of the round trips) -/
+
+/-- two int64 with the same eight bytes are equal -/
+theorem writeInt64_injective (x y : Int) (hx : InInt64 x) (hy : InInt64 y) (h : writeInt64 x = writeInt64 y) :
+    x = y := by
+  have a := writeInt64_readInt64 x [] hx
+  have b := writeInt64_readInt64 y [] hy
+  rw [h, b] at a
+  injection a with a; injection a with a; exact a.symm
+
+/-- two storable version vectors with the same bytes are the same vector: the stored `versionvectors` rows and
+    snapshot vectors identify their value -/
+theorem vvBytes_injective (v w : VV) (hkv : (v.map (·.1)).Nodup) (hev : ∀ p ∈ v, VVBytes.EntryOk p)
+    (hlv : InInt64 (v.length : Int)) (hkw : (w.map (·.1)).Nodup) (hew : ∀ p ∈ w, VVBytes.EntryOk p)
+    (hlw : InInt64 (w.length : Int)) (h : VVBytes.encode v = VVBytes.encode w) : v = w := by
+  have a := vvBytes_roundtrip v hkv hev hlv
+  have b := vvBytes_roundtrip w hkw hew hlw
+  rw [h, b] at a
+  injection a with a; exact a.symm
+
+/-- two primitives of the same value type with the same bytes are equal (the type tag travels beside the bytes
+    in the protobuf message, so "same type" is what the decoder is given) -/
+theorem primBytes_injective (p q : PrimBytes.Prim) (ht : p.vtype = q.vtype)
+    (h : PrimBytes.encode p = PrimBytes.encode q) : p = q := by
+  have a := primBytes_roundtrip p
+  have b := primBytes_roundtrip q
+  rw [h, ht, b] at a
+  injection a with a; exact a.symm
+
+open SnapshotHeader in
+/-- two snapshots with the same stored frame are the same snapshot -/
+theorem snapshotHeader_injective (z : Zstd) (hz : z.Sound) (d e : Bytes) (h : frame z d = frame z e) : d = e := by
+  have a := snapshotHeader_roundtrip z hz d
+  have b := snapshotHeader_roundtrip z hz e
+  rw [h, b] at a
+  injection a with a; exact a.symm
+
+
 end Yorkie.Props.C09
